@@ -323,16 +323,28 @@ package imperatives
 //@   loop 1:
 //@     invariant[scan] t != nil && opts != nil
 //@
-//@ // The three largest readers (about 200 lines of option parsing each) are not verified yet: trusted, listed in the evidence.
-//@ func readAddRouteGrafanaNet(s *toki.Scanner, table table.Interface) error
-//@   trusted
+//@ // The three largest readers (about 200 lines of option parsing each): panic-freedom only (their options are not specified).
+//@ func readAddRouteGrafanaNet(s *toki.Scanner, table table.Interface) (err error)
+//@   property C14
+//@   merge_paths
+//@   requires s != nil && table != nil && table.ref != 0
 //@   modifies *
-//@ func readAddRouteKafkaMdm(s *toki.Scanner, table table.Interface) error
-//@   trusted
+//@   loop 1:
+//@     invariant[scan] t != nil && (bhasSuffix(cfg.Addr, "/metrics") || bhasSuffix(cfg.Addr, "/metrics/"))
+//@ func readAddRouteKafkaMdm(s *toki.Scanner, table table.Interface) (err error)
+//@   property C14
+//@   merge_paths
+//@   requires s != nil && table != nil && table.ref != 0
 //@   modifies *
-//@ func readAddRoutePubSub(s *toki.Scanner, table table.Interface) error
-//@   trusted
+//@   loop 1:
+//@     invariant[scan] t != nil
+//@ func readAddRoutePubSub(s *toki.Scanner, table table.Interface) (err error)
+//@   property C14
+//@   merge_paths
+//@   requires s != nil && table != nil && table.ref != 0
 //@   modifies *
+//@   loop 1:
+//@     invariant[scan] t != nil
 //@
 //@ // Apply: one admin / init command. Whatever the command text, the dispatcher and the readers under contract do not panic.
 //@ extern func toki.NewScanner(def []toki.Def) *toki.Scanner
